@@ -171,10 +171,12 @@ impl<S> Map<S> {
 
     pub(crate) fn begin_group(&mut self) {
         self.commands.begin_group();
+        self.active_char.begin_group();
     }
 
     pub(crate) fn end_group(&mut self) -> std::result::Result<(), groupingmap::NoGroupToEndError> {
         self.commands.end_group()?;
+        self.active_char.end_group()?;
         Ok(())
     }
 
@@ -255,6 +257,8 @@ pub(crate) struct SerializableMap<'a> {
     // This would be more efficient on the deserialization path.
     // TODO: maybe the map should also serde itself using the iterator.
     commands: GroupingHashMap<token::CsName, SerializableCommand>,
+    #[cfg_attr(feature = "serde", serde(default))]
+    active_char: GroupingHashMap<char, SerializableCommand>,
     macros: Vec<Cow<'a, texmacro::Macro>>,
 }
 
@@ -275,59 +279,69 @@ impl<'a> SerializableMap<'a> {
         let mut macros: Vec<Cow<'a, texmacro::Macro>> = Default::default();
         let primitive_key_to_built_in = map.primitive_key_to_built_in();
         let getters_key_to_built_in = map.getters_key_to_built_in();
+        let mut convert = |command: &'a Command<S>| -> SerializableCommand {
+            match command {
+                Command::Expansion(_, _) | Command::Execution(_, _) => {
+                    let key = PrimitiveKey::new(command).unwrap();
+                    match primitive_key_to_built_in.get(&key) {
+                        None => todo!("return an error"),
+                        Some(built_in) => SerializableCommand::BuiltIn(*built_in),
+                    }
+                }
+                Command::Variable(variable_command) => {
+                    let key = PrimitiveKey::new(command).unwrap();
+                    if let Some(built_in) = primitive_key_to_built_in.get(&key) {
+                        SerializableCommand::BuiltIn(*built_in)
+                    } else {
+                        // As a fallback, we can serialize static references into arrays when
+                        // we've been provided with a way to reference the array.
+                        match variable_command.key() {
+                            variable::CommandKey::ArrayStatic(getters_key, index) => {
+                                let built_in = getters_key_to_built_in.get(&getters_key).unwrap();
+                                SerializableCommand::VariableArrayStatic(*built_in, index.0)
+                            }
+                            _ => todo!(),
+                        }
+                    }
+                }
+                Command::Macro(tex_macro) => {
+                    let rc_addr = Rc::as_ptr(tex_macro) as usize;
+                    let u = *macros_de_dup.entry(rc_addr).or_insert_with(|| {
+                        let u = macros.len();
+                        macros.push(Cow::Borrowed(tex_macro));
+                        u
+                    });
+                    SerializableCommand::Macro(u)
+                }
+                Command::CharacterTokenAlias(v) => SerializableCommand::CharacterTokenAlias(*v),
+                Command::Character(c) => SerializableCommand::Character(*c),
+                Command::MathCharacter(c) => SerializableCommand::MathCharacter(*c),
+                Command::Font(font) => SerializableCommand::Font(*font),
+            }
+        };
         let commands: GroupingHashMap<token::CsName, SerializableCommand> = map
             .commands
             .iter_all()
             .map(groupingmap::Item::adapt_map(
-                |(u, command): (usize, &Command<S>)| {
-                    let command: SerializableCommand = match command {
-                        Command::Expansion(_, _) | Command::Execution(_, _) => {
-                            let key = PrimitiveKey::new(command).unwrap();
-                            match primitive_key_to_built_in.get(&key) {
-                                None => todo!("return an error"),
-                                Some(built_in) => SerializableCommand::BuiltIn(*built_in),
-                            }
-                        }
-                        Command::Variable(variable_command) => {
-                            let key = PrimitiveKey::new(command).unwrap();
-                            if let Some(built_in) = primitive_key_to_built_in.get(&key) {
-                                SerializableCommand::BuiltIn(*built_in)
-                            } else {
-                                // As a fallback, we can serialize static references into arrays when
-                                // we've been provided with a way to reference the array.
-                                match variable_command.key() {
-                                    variable::CommandKey::ArrayStatic(getters_key, index) => {
-                                        let built_in =
-                                            getters_key_to_built_in.get(&getters_key).unwrap();
-                                        SerializableCommand::VariableArrayStatic(*built_in, index.0)
-                                    }
-                                    _ => todo!(),
-                                }
-                            }
-                        }
-                        Command::Macro(tex_macro) => {
-                            let rc_addr = Rc::as_ptr(tex_macro) as usize;
-                            let u = *macros_de_dup.entry(rc_addr).or_insert_with(|| {
-                                let u = macros.len();
-                                macros.push(Cow::Borrowed(tex_macro));
-                                u
-                            });
-                            SerializableCommand::Macro(u)
-                        }
-                        Command::CharacterTokenAlias(v) => {
-                            SerializableCommand::CharacterTokenAlias(*v)
-                        }
-                        Command::Character(c) => SerializableCommand::Character(*c),
-                        Command::MathCharacter(c) => SerializableCommand::MathCharacter(*c),
-                        Command::Font(font) => SerializableCommand::Font(*font),
-                    };
-
+                |(u, command): (usize, &'a Command<S>)| {
                     let cs_name = token::CsName::try_from_usize(u).unwrap();
-                    (cs_name, command)
+                    (cs_name, convert(command))
                 },
             ))
             .collect();
-        Self { commands, macros }
+        let active_char: GroupingHashMap<char, SerializableCommand> = map
+            .active_char
+            .iter_all()
+            .map(groupingmap::Item::adapt_map(
+                |(c, command): (char, &'a Command<S>)| (c, convert(command)),
+            ))
+            .collect();
+        drop(convert);
+        Self {
+            commands,
+            active_char,
+            macros,
+        }
     }
 
     pub(crate) fn finish_deserialization<S>(
@@ -341,51 +355,67 @@ impl<'a> SerializableMap<'a> {
             .map(std::borrow::Cow::into_owned)
             .map(Rc::new)
             .collect();
+        let convert = |serialized_command: &SerializableCommand| -> Command<S> {
+            match serialized_command {
+                SerializableCommand::BuiltIn(cs_name) => match built_in_commands.get(cs_name) {
+                    None => {
+                        panic!("unknown control sequence {:?}", interner.resolve(*cs_name))
+                    }
+                    Some(cmd) => cmd.cmd.clone(),
+                },
+                SerializableCommand::VariableArrayStatic(cs_name, index) => {
+                    match &built_in_commands.get(cs_name).unwrap().cmd {
+                        Command::Variable(variable_command) => Command::Variable(std::rc::Rc::new(
+                            variable_command.new_array_element(variable::Index(*index)),
+                        )),
+                        _ => todo!(),
+                    }
+                }
+                SerializableCommand::Macro(u) => {
+                    // TODO: error handling if the macro is missing
+                    Command::Macro(macros.get(*u).unwrap().clone())
+                }
+                SerializableCommand::CharacterTokenAlias(v) => Command::CharacterTokenAlias(*v),
+                SerializableCommand::Character(c) => Command::Character(*c),
+                SerializableCommand::MathCharacter(c) => Command::MathCharacter(*c),
+                SerializableCommand::Font(font) => Command::Font(*font),
+            }
+        };
         let commands: GroupingVec<Command<S>> = self
             .commands
             .iter_all()
             .map(groupingmap::Item::adapt_map(
                 |(cs_name, serialized_command): (token::CsName, &SerializableCommand)| {
-                    let command = match serialized_command {
-                        SerializableCommand::BuiltIn(cs_name) => {
-                            match built_in_commands.get(cs_name) {
-                                None => {
-                                    panic!(
-                                        "unknown control sequence {:?}",
-                                        interner.resolve(*cs_name)
-                                    )
-                                }
-                                Some(cmd) => cmd.cmd.clone(),
-                            }
-                        }
-                        SerializableCommand::VariableArrayStatic(cs_name, index) => {
-                            match &built_in_commands.get(cs_name).unwrap().cmd {
-                                Command::Variable(variable_command) => {
-                                    Command::Variable(std::rc::Rc::new(
-                                        variable_command.new_array_element(variable::Index(*index)),
-                                    ))
-                                }
-                                _ => todo!(),
-                            }
-                        }
-                        SerializableCommand::Macro(u) => {
-                            // TODO: error handling if the macro is missing
-                            Command::Macro(macros.get(*u).unwrap().clone())
-                        }
-                        SerializableCommand::CharacterTokenAlias(v) => {
-                            Command::CharacterTokenAlias(*v)
-                        }
-                        SerializableCommand::Character(c) => Command::Character(*c),
-                        SerializableCommand::MathCharacter(c) => Command::MathCharacter(*c),
-                        SerializableCommand::Font(font) => Command::Font(*font),
-                    };
-                    (cs_name.to_usize(), command)
+                    (cs_name.to_usize(), convert(serialized_command))
                 },
             ))
             .collect();
+        let mut active_char: GroupingHashMap<char, Command<S>> = self
+            .active_char
+            .iter_all()
+            .map(groupingmap::Item::adapt_map(
+                |(c, serialized_command): (char, &SerializableCommand)| {
+                    (c, convert(serialized_command))
+                },
+            ))
+            .collect();
+        // Data serialized before active characters were included has no groups for them.
+        let num_groups = self
+            .commands
+            .iter_all()
+            .filter(|item| matches!(item, groupingmap::Item::BeginGroup))
+            .count();
+        let num_active_char_groups = self
+            .active_char
+            .iter_all()
+            .filter(|item| matches!(item, groupingmap::Item::BeginGroup))
+            .count();
+        for _ in num_active_char_groups..num_groups {
+            active_char.begin_group();
+        }
         Map {
             commands,
-            active_char: Default::default(), // TODO
+            active_char,
             built_in_commands,
             primitive_key_to_built_in_lazy: Default::default(),
             getters_key_to_built_in_lazy: Default::default(),
